@@ -15,10 +15,17 @@ LEVEL_TEXT = ("Proved for all sizes (induction, no samples): the string tracking
               "(one injective relabelling of all keys) the multi-controlled merge's controls hold exactly on the chosen pair "
               "(C06_merge_select); the merge rotation (complex and real branch) and the CVO-QRAM rotation load the exact amplitudes, "
               "norm recurrence included (C06_merge_rot, C06_cvo_amp); Hamming-sorted distinct patterns never fire an earlier branch "
-              "(C06_cvo_order). Partial: pivot step (C06_pivot_step_partial: choice of index_differ/ctrl_state/target_cx, pivot -> free "
-              "index, low block fixed, lengths, exit => all keys < 2^t; NOT proved: _next_state = gate evaluation on the other high keys, "
-              "injectivity there, _get_index_zero pigeonhole). Not proved: whole-circuit induction over m (C06_merge_total), the rccx "
-              "ladders. Tie: all dictionaries with n<=3 (every subset, 2/4 orders) and random ones to n<=7, all 7 variants. Oracle: "
+              "(C06_cvo_order); WHOLE CIRCUIT of CvoqramInitialize (C06_cvo_total): for every n, both layouts and every mcg_method, the model "
+              "circuit (x(flag), flip-flop, controlled U(alpha,beta,-beta) as ideal multi-controlled gate resp. the rccx compute/cu/uncompute "
+              "ladder with qiskit's relative-phase matrix, flip-flop back) maps |0..0> to sum_k x_k|p_k>|flag 0>|anc 0> exactly (global phase, "
+              "zeros elsewhere, ancillas clean), by induction over the patterns, complex or real amplitudes; the rccx matrix used there is "
+              "derived from qiskit's h/t/cx/tdg definition (C06_rccx_matrix); WHOLE CIRCUIT of MergeInitialize (C06_merge_total, _unit): for every "
+              "dictionary of m>=2 distinct n-bit keys (complex, or non-negative real amplitudes) mergeInit succeeds and the reversed "
+              "circuit maps ||a||.|0..0> to sum_k a_k|k> exactly (global phase, zeros elsewhere), by induction over the loop passes. WHOLE CIRCUIT of PivotInitialize (C06_pivot_total, C06_pivot_total_aux): pivotInit succeeds for every dictionary of m>=2 (aux: m>=3) distinct "
+              "keys (pigeonhole for _get_index_zero, strictly decreasing count of keys outside the low block: C06_pivot_progress; _next_state = "
+              "evaluation of the emitted gates on ALL keys and injective: C06_pivot_step) and, given the C01 hypothesis for the dense hand-off of "
+              "that call, dense initializer + pivot gates in inverse order with reverse_bits prepare the dictionary exactly (zeros elsewhere; aux: "
+              "rccx ladder with true phases, auxiliaries returned clean). The older C06_pivot_step_partial is kept (subsumed). Tie: all dictionaries with n<=3 (every subset, 2/4 orders) and random ones to n<=7, all 7 variants. Oracle: "
               "Statevector of the real definitions vs the embedded dictionary (global phase, zeros elsewhere, auxiliaries in |0>).")
 LEVEL_NOTE = ("Trusted: Lean kernel (standard axioms); hand models <-> code only on explored inputs; multi-controlled back-ends (Ldmcu, Mcg, "
               "LdMcSpecialUnitary, qiskit .control()/mcx v-chain-dirty), rccx, LowRankInitialize are opaque primitives (C04/C05/C01, checked "
@@ -27,6 +34,8 @@ LEAN_TARGETS = ["QclibModel.Props.C06"]
 THEOREMS = [
     "Qclib.C06_track", "Qclib.C06_search_terminates", "Qclib.C06_merge_select", "Qclib.C06_merge_rot",
     "Qclib.C06_pivot_step_partial", "Qclib.C06_cvo_order", "Qclib.C06_cvo_amp",
+    "Qclib.C06_cvo_total", "Qclib.C06_rccx_matrix", "Qclib.C06_merge_total", "Qclib.C06_merge_total_unit",
+    "Qclib.C06_pivot_step", "Qclib.C06_pivot_progress", "Qclib.C06_pivot_total", "Qclib.C06_pivot_total_aux",
 ]
 TRUSTED = [
     "multi-controlled one-qubit gates (Ldmcu, Mcg, LdMcSpecialUnitary, qiskit ControlledGate, mcx v-chain-dirty, ccx) act as "
